@@ -55,7 +55,10 @@ def c11_case(draw):
         j = draw(st.integers(0, c['n'] - 1))
         vt[j] = draw(st.sampled_from(['I', 'B']))
         if vt[j] == 'B':
-            c['bounds'][j] = draw(st.sampled_from([['free', None, None], ['box', 0.0, 1.0], ['fix', 0.0, 0.0], ['fix', 1.0, 1.0], ['box', -2.0, 3.0]]))
+            c['bounds'][j] = draw(st.sampled_from([['free', None, None], ['box', 0.0, 1.0], ['fix', 0.0, 0.0], ['fix', 1.0, 1.0], ['box', -2.0, 3.0],
+                                                   ['box', 2.0, 3.0], ['box', -3.0, -1.0]]))
+            if c['bounds'][j][1] in (2.0, -3.0):
+                c['bin_infeasible'] = True      # a binary whose user bounds exclude 0 and 1: the program is infeasible
             c['witness'][j] = 0.0 if c['bounds'][j][1] in (None, 0.0, -2.0) else 1.0
         else:
             b = c['bounds'][j]
@@ -66,8 +69,14 @@ def c11_case(draw):
         c['cones'] = []
         c['lin'] = []
     c['fam'] = fam
+    if fam in ('milp', 'misoc') and 'B' in c['vtypes'] and draw(st.integers(0, 5)) == 0:
+        j = draw(st.sampled_from([i for i, t in enumerate(c['vtypes']) if t == 'B']))
+        c['bounds'][j] = draw(st.sampled_from([['box', 2.0, 3.0], ['box', -3.0, -1.0], ['lb', 2.0, None], ['ub', None, -1.0]]))
+        c['bin_infeasible'] = True      # a binary whose user bounds exclude 0 and 1: the program is infeasible
     c['status'] = draw(st.sampled_from(['feasible', 'feasible', 'feasible', 'infeasible', 'unbounded']))
-    if c['status'] == 'infeasible' and draw(st.integers(0, 2)) == 0:
+    if c.get('bin_infeasible'):
+        c['status'] = 'infeasible'
+    elif c['status'] == 'infeasible' and draw(st.integers(0, 2)) == 0:
         # a row without any term whose constant cannot hold (all-zero data row with a positive demand): 0 <= -1 / 0 >= 2
         sense = draw(st.sampled_from(['le', 'ge']))
         c['lin'].append({'A': [[0.0] * c['n']], 'b': [-1.0 if sense == 'le' else 2.0], 'sense': sense, 'style': 0})
